@@ -69,6 +69,34 @@ def create(kind, path, out, piece_length=None, progress=0, **kw):
     if piece_length is not None:
         args["piece_length"] = piece_length
     args.update(kw)
+    if getattr(progress, "abort_first", False):
+        # an earlier creation with the same class on the same tree was cancelled half way (the
+        # hash callback raised): nothing of it may show in the creation that follows
+        import torrentfile.hasher as th
+        hcls = getattr(th, {"v1": "Hasher", "v2": "HasherV2", "hy": "HasherHybrid"}.get(kind, "FileHasher"))
+        old_cb = hcls.__dict__.get("cb")
+        calls = [0]
+
+        def cancel(*_a, **_k):
+            calls[0] += 1
+            if calls[0] >= 2:
+                raise KeyboardInterrupt("cancelled")
+        hcls.cb = staticmethod(cancel)
+        try:
+            with quiet():
+                cls(**dict(args, outfile=out + ".aborted"))
+        except BaseException:  # noqa
+            pass
+        finally:
+            if old_cb is None:
+                try:
+                    del hcls.cb
+                except AttributeError:
+                    pass
+            else:
+                hcls.cb = old_cb
+            if os.path.exists(out + ".aborted"):
+                os.remove(out + ".aborted")
     with quiet():
         obj = cls(**args)
         for _ in range(again):
